@@ -115,6 +115,20 @@ impl TryFrom<&AddCertificate> for CertifiedKeyWrapper {
         } else {
             add.certificate.names.clone()
         };
+        // DNS names compare case-insensitively and rustls hands the SNI over in
+        // lower case without a trailing dot: index the names in that form, or a
+        // certificate whose SAN (or overriding name) is spelled `A.Example.COM`
+        // or `a.example.com.` would never cover its own server name.
+        let mut overriding_names: Vec<String> = overriding_names
+            .into_iter()
+            .map(|name| {
+                name.strip_suffix('.')
+                    .unwrap_or(name.as_str())
+                    .to_ascii_lowercase()
+            })
+            .collect();
+        let mut seen_names = std::collections::HashSet::new();
+        overriding_names.retain(|name| seen_names.insert(name.clone()));
 
         let expiration = add
             .expired_at
